@@ -22,16 +22,17 @@ type twModelTask struct {
 
 // twSys is one real wheel driven in lock-step with its reference model.
 type twSys struct {
-	r       *vrt.Run
-	n       int
-	w       *TimingWheel
-	tk      timex.FakeTicker
-	fired   []string // "key=val" observed since the last op
-	drained []string
-	T       int
-	model   map[string]*twModelTask
+	r          *vrt.Run
+	n          int
+	w          *TimingWheel
+	tk         timex.FakeTicker
+	fired      []string // "key=val" observed since the last op
+	drained    []string
+	T          int
+	model      map[string]*twModelTask
 	wasDrained bool
-	stopped bool
+	stopped    bool
+	tombstones bool // keep removed entries apart in the canonical state
 }
 
 func newTwSys(r *vrt.Run, n int) *twSys {
@@ -198,13 +199,27 @@ func (s *twSys) canon() string {
 	for i := 0; i < s.n; i++ {
 		pos := (s.w.tickedPos + 1 + i) % s.n
 		var es []string
+		tomb := map[string]bool{}
 		for e := s.w.slots[pos].Front(); e != nil; e = e.Next() {
 			t := e.Value.(*timingEntry)
 			if t.removed {
-				continue // tombstones can never fire and vanish at the next scan: no future depends on them
+				// tombstones are inert and vanish at the next scan - in the code as it is; the
+				// distinct kinds present in a slot (not how many, nor where in the list) are kept
+				// in the state all the same, so that a change which lets a tombstone act again (a
+				// pending hop, a revived index entry) is not hidden by merged states
+				if s.tombstones {
+					tomb[fmt.Sprintf("~%v/c%d/d%d", t.key, t.circle, t.diff)] = true
+				}
+				continue
 			}
 			es = append(es, fmt.Sprintf("%v/c%d/d%d", t.key, t.circle, t.diff))
 		}
+		var ts []string
+		for k := range tomb {
+			ts = append(ts, k)
+		}
+		sort.Strings(ts)
+		es = append(es, ts...)
 		impl = append(impl, strings.Join(es, ","))
 	}
 	var idx []string
@@ -270,6 +285,12 @@ func TestVerifTimingWheel(t *testing.T) {
 			cfgs = append(cfgs, cfg{n, []string{"a"}, 40}, cfg{n, []string{"a", "b"}, 40})
 		}
 	}
+	// larger single-key wheels with tombstones kept apart: depth-bounded
+	tdepth := 7
+	if vrt.Thorough() {
+		tdepth = 10
+	}
+	cfgs = append(cfgs, cfg{3, []string{"a"}, tdepth}, cfg{4, []string{"a"}, tdepth})
 	// saturation: a small alphabet explored to a fixpoint (every reachable state, any depth)
 	satN := []int{2, 3}
 	if vrt.Thorough() {
@@ -286,6 +307,7 @@ func TestVerifTimingWheel(t *testing.T) {
 		}
 		vrt.BFS(vrt.Options{Name: fmt.Sprintf("timingwheel/saturation/slots=%d/keys=1", n), Budget: vrt.FairBudget(1)}, 40, ops, func(r *vrt.Run, hist []string) vrt.Step {
 			s := newTwSys(r, n)
+			s.tombstones = n <= 2 // (larger wheels: the tombstone kinds multiply the states beyond the quick budget; see the depth-bounded scenarios below)
 			for i, op := range hist {
 				if !s.apply(op, i) {
 					return vrt.Step{}
@@ -303,8 +325,13 @@ func TestVerifTimingWheel(t *testing.T) {
 		}
 		c := c
 		ops := twOps(c.n, c.keys, vrt.Thorough())
-		vrt.BFS(vrt.Options{Name: fmt.Sprintf("timingwheel/slots=%d/keys=%d", c.n, len(c.keys)), Budget: vrt.FairBudget(1)}, c.depth, ops, func(r *vrt.Run, hist []string) vrt.Step {
+		name := fmt.Sprintf("timingwheel/slots=%d/keys=%d", c.n, len(c.keys))
+		if c.depth < 20 {
+			name += fmt.Sprintf("/tombstones/depth=%d", c.depth)
+		}
+		vrt.BFS(vrt.Options{Name: name, Budget: vrt.FairBudget(1)}, c.depth, ops, func(r *vrt.Run, hist []string) vrt.Step {
 			s := newTwSys(r, c.n)
+			s.tombstones = len(c.keys) == 1 && (c.n <= 2 || c.depth < 20)
 			for i, op := range hist {
 				ok := s.apply(op, i)
 				if !ok {
